@@ -105,6 +105,16 @@ func H_C05_p2p_validator_dispatch() {
 // C04/C05 (combination): when several handlers validate one topic (a flavour's own handler plus
 // the core handler), every registered validator is consulted and a reject from any of them wins,
 // then an ignore, and only unanimous acceptance accepts.
+// vfCtx: a context that reports "done" at an arbitrary moment
+type vfCtx struct{ context.Context }
+
+func (c vfCtx) Err() error {
+	if vfBool("validation-context-is-done") {
+		return context.Canceled
+	}
+	return nil
+}
+
 func H_C04_combined_validator() {
 	vfP2P.kind, vfP2P.decodeFails, vfP2P.trace = 1, false, false
 	m := &P2PMessaging{gossipTopicNames: map[string]struct{}{}, handlerRegistry: HandlerRegistry{}, validatorRegistry: ValidatorRegistry{}}
@@ -124,7 +134,9 @@ func H_C04_combined_validator() {
 	topic := p.Topic()
 	vfAssert(len(m.validatorRegistry[topic]) == n, "every-validator-of-the-topic-is-registered")
 	combined := m.validatorRegistry.GetCombinedValidator(topic)
-	res := combined(context.Background(), peer.ID("sender"), &pubsub.Message{Message: &pubsubpb.Message{Topic: &topic}})
+	// the validation context may be done at any moment (pubsub's validation timeout, shutdown):
+	// that must never turn into an acceptance of a message nobody looked at
+	res := combined(vfCtx{context.Background()}, peer.ID("sender"), &pubsub.Message{Message: &pubsubpb.Message{Topic: &topic}})
 	anyReject, anyIgnore := false, false
 	for _, v := range verdicts {
 		if v == pubsub.ValidationReject {
